@@ -248,7 +248,12 @@ def strat_cli():
     # an identification string starts at the first byte of its line: indented look-alikes are header text
     indented = st.tuples(st.sampled_from([' ', '  ', '    ']), st.sampled_from(['SSH-2.0-Gateway_1.0 connections are logged', 'SSH-2.0-OpenSSH_8.0', 'SSH-1.99-dropbear_2020.81', 'SSH-1.5-x', 'SSH-2.0-'])).map(lambda t: t[0] + t[1])
     lowercase = st.sampled_from(['ssh-2.0-compatible relay, connections are logged', 'Ssh-2.0-Gateway', 'sSH-1.99-x y', 'ssh-1.5-old', 'ssh-2.0-', 'SSh-2.0-OpenSSH_8.0'])      # only 'SSH-' in upper case starts an identification string
-    hdr = st.one_of(hdr, hdr, hdr, indented, lowercase)
+    # lines with bytes outside printable ASCII: made of nothing else (telnet negotiation, bells, shift codes), or led by them
+    # (a byte-order mark in front of ordinary text or of a look-alike); none of these bytes is white space
+    odd = st.sampled_from(['\x00', '\x01', '\x07', '\x1b', '\x7f', '\xff\xfb\x01', '\xff\xfd\x18', '\x0e', '\x0f', '\xc3\xa9', '\xef\xbb\xbf', '\xe2\x82\xac', '\xfe\xff'])
+    only_odd = st.lists(st.one_of(odd, odd, st.just(' ')), min_size=1, max_size=5).map(''.join).filter(lambda s: s.strip() != '' and s == s.strip())
+    led_odd = st.tuples(odd, st.sampled_from(['Welcome', 'SSH-2.0-OpenSSH_8.0', 'SSH-2.0-fake_1.0 x', 'SSH-1.5-old', 'x', 'SSH-2.0-']), st.one_of(st.just(''), odd)).map(lambda t: t[0] + t[1] + t[2])
+    hdr = st.one_of(hdr, hdr, hdr, indented, lowercase, only_odd, led_odd)
 
     def build(t):
         line, headers, eol, seg, role = t
@@ -293,6 +298,11 @@ def run(ctx):
             grid.append({'kind': 'cli', 'line': 'SSH-2.0-OpenSSH_8.9p1 Ubuntu-3ubuntu0.1', 'header': ['Welcome to host', '* authorised use only *'], 'eol': '\r\n', 'segment': seg, 'eagain': k})
             grid.append({'kind': 'cli', 'line': 'SSH-1.99-dropbear_2020.81', 'header': [], 'eol': '\n', 'segment': seg, 'eagain': k, 'role': 'client'})
     # a notice of a few dozen lines in front of the identification string, delivered byte by byte (thousands of reads)
+    for eol in ('\r\n', '\n'):
+        for seg in (0, 1, 3):
+            for h in (['\xff\xfb\x01\xff\xfd\x18'], ['\x07\x07'], ['\x1b\x0e \x0f'], ['hello', '\x00', 'world'], ['\xef\xbb\xbfSSH-2.0-fake_1.0'], ['\xef\xbb\xbfWelcome'], ['\xef\xbb\xbf', 'a'], ['a\xef\xbb\xbfb']):
+                grid.append({'kind': 'cli', 'line': 'SSH-2.0-OpenSSH_8.9p1 Ubuntu-3ubuntu0.1', 'header': h, 'eol': eol, 'segment': seg})
+                grid.append({'kind': 'cli', 'line': 'SSH-1.99-dropbear_2020.81', 'header': h, 'eol': eol, 'segment': seg, 'role': 'client'})
     notice = ['* line %02d of the notice: authorised use only, sessions are recorded *' % i for i in range(30)]
     for seg in (1, 2, 3):
         for eol in ('\r\n', '\n'):
@@ -302,5 +312,5 @@ def run(ctx):
     if not q:
         from vlib import fuzzrun
         fuzzrun.run_into(ctx, 'c16_banner', runs=300000, shards=8, seeds_corpus=[b'SSH-2.0-OpenSSH_8.9p1 Ubuntu-3', b'SSH-1.99-dropbear_2020.81 x  y', b'SSH-2.0-libssh-0.10.6'], max_len=256)
-    return ctx.finish('exploration', 'banner lines from the grammar SSH-<1.x|2.x|1.99>-<software>[ <comments>] (software over printable ASCII without space, comments with single/multiple spaces, injected control / non-ASCII bytes), product strings of every known family at generated versions and patch levels, the multi-version form; CLI: 0-4 header lines + banner, CR LF / LF, delivered whole or in segments of 1, 2, 7, 64 bytes (and every size 1..40 for two fixed banners); non-trivial = header lines, comments, substituted bytes or split delivery',
+    return ctx.finish('exploration', 'banner lines from the grammar SSH-<1.x|2.x|1.99>-<software>[ <comments>] (software over printable ASCII without space, comments with single/multiple spaces, injected control / non-ASCII bytes), product strings of every known family at generated versions and patch levels, the multi-version form; CLI: 0-4 header lines (printable text, indented / lower-case look-alikes, lines made only of bytes outside printable ASCII, lines led by such bytes incl. a byte-order mark) + banner, CR LF / LF, delivered whole or in segments of 1, 2, 7, 64 bytes (and every size 1..40 for two fixed banners); non-trivial = header lines, comments, substituted bytes or split delivery',
                       assumptions=['banner separators are spaces (TAB is not printable ASCII and is substituted)', 'software tokens starting SSH-d.d are the documented multi-version form and are tested separately', 'header lines are shown unsanitised by design (observation, not checked)'])
